@@ -190,6 +190,31 @@ def run_navigation(s1, t1, r1, s2, t2, q, rtsel, flags, split):
             only_tools = api.related_to(arg, rt, so, to, filters=[Filter("type", "=", "tool")])
             if sorted(o["id"] for o in only_tools) != sorted(i for i in want if i.startswith("tool--")):
                 return False
+    if so and to:
+        return True
+    # a filter attached to the source (or the composite) applies to navigation like to any other answer: here it hides the first relationship
+    hide = Filter("id", "!=", rels[0]["id"])
+    exp_rels2, exp_ids2 = set(), set()
+    for r in rels[1:]:
+        if rt and r["relationship_type"] != rt:
+            continue
+        as_src, as_tgt = r["source_ref"] == NODES[q], r["target_ref"] == NODES[q]
+        if (as_src and not to) or (as_tgt and not so):
+            exp_rels2.add(r["id"])
+            exp_ids2.update((r["source_ref"], r["target_ref"]))
+    exp_ids2.discard(NODES[q])
+    comp2 = CompositeDataSource()
+    comp2.add_data_sources([MemorySource(m_a), MemorySource(m_b)])
+    inner = CompositeDataSource()
+    inner.add_data_sources([MemorySource(m_a), MemorySource(m_b)])
+    outer = CompositeDataSource()
+    outer.add_data_sources([inner])
+    for api in (MemorySource(rels + nodes), comp2, outer):
+        api.filters.add(hide)
+        if sorted(o["id"] for o in api.relationships(NODES[q], rt, so, to)) != sorted(exp_rels2):
+            return False
+        if sorted(o["id"] for o in api.related_to(NODES[q], rt, so, to)) != sorted(exp_ids2):
+            return False
     return True
 
 
